@@ -38,6 +38,27 @@ pub fn apply2(t: &str, x: &str, y: &str) -> String {
     out
 }
 
+/// postfix chains: a base followed by up to `n` postfix operators -- reaches
+/// "filter . field filter" and similar shapes beyond the sentence length bound
+pub const POSTFIX: &[&str] = &[".a", ".b", "[0]", "[1:]", "[*]", "[]", ".*", "[?a]", "[?b > `0`]", ".[a, b]", " | a", " || b", " == a"];
+pub const BASES: &[&str] = &["a", "@", "[0]", "*", "!a", "(a)", "[a, b]"];
+
+pub fn chains(n: usize) -> Vec<String> {
+    let mut out: Vec<String> = Vec::new();
+    let mut layer: Vec<String> = BASES.iter().map(|s| s.to_string()).collect();
+    for _ in 0..n {
+        let mut next = Vec::new();
+        for c in &layer {
+            for p in POSTFIX {
+                next.push(format!("{}{}", c, p));
+            }
+        }
+        out.extend(next.iter().cloned());
+        layer = next;
+    }
+    out
+}
+
 pub fn e1() -> Vec<String> {
     let l = e0();
     let mut out: Vec<String> = l.iter().map(|s| s.to_string()).collect();
@@ -204,10 +225,21 @@ pub fn run(tier: Tier) -> i32 {
         });
     });
     st = st.merge(sb1);
+    // (c) postfix chains
+    let clen = tier.pick(4, 5);
+    let ch = chains(clen);
+    let sc = par_sweep(ch.chunks(256).map(|c| c.to_vec()).collect(), |chunk: &Vec<String>, st| {
+        with_pool(full, |pool| {
+            for s in chunk {
+                check_expr(s, pool, "postfix-chains", st);
+            }
+        });
+    });
+    st = st.merge(sc);
     rep.guard("some expressions yield non-null results", st.nontrivial > 100);
     rep.guard("more than 1000 expressions explored", st.states > 1000);
     rep.rule = "(a) every sentence of the grammar over the core token alphabet up to the length bound (DFS over viable prefixes) and (b) every composed expression E1 = production(E0,E0), E2 = production(E1, E0|E1); each expression is searched on every document of the pool by the implementation and by the reference interpreter R-eval(R-parse(e), d). states = expressions, transitions = (expression, document) pairs; non-trivial = the expression has a non-null result on at least one document".into();
-    rep.bounds = json!({"sentence_len": l, "alphabet": alpha.texts, "documents": if full { pool_full().len() } else { pool_quick().len() }, "E0": e0v, "unary": UNARY, "binary": BINARY, "E2": if full {"E1 x E1 for binary productions"} else {"E1 x E0 and E0 x E1 for binary productions"}});
+    rep.bounds = json!({"sentence_len": l, "alphabet": alpha.texts, "documents": if full { pool_full().len() } else { pool_quick().len() }, "postfix_chain_len": clen, "postfix": POSTFIX, "bases": BASES, "E0": e0v, "unary": UNARY, "binary": BINARY, "E2": if full {"E1 x E1 for binary productions"} else {"E1 x E0 and E0 x E1 for binary productions"}});
     rep.assumptions = vec![
         "reference semantics = DESIGN Appendix A, bound to the compliance fixtures at check start".into(),
         "a step-0 slice applied to a non-array may be an error or null".into(),
